@@ -632,23 +632,24 @@ func ConvertTypedValueToYANGType(schemaElem *sdcpb.SchemaElem, tv *sdcpb.TypedVa
 		case "string", "identityref":
 			return tv, nil
 		case "uint64", "uint32", "uint16", "uint8":
-			i, err := strconv.Atoi(TypedValueToString(tv))
+			// the whole range of uint64, not just that of int
+			i, err := strconv.ParseUint(TypedValueToString(tv), 10, 64)
 			if err != nil {
 				return nil, err
 			}
 			ctv := &sdcpb.TypedValue{
 				Timestamp: tv.GetTimestamp(),
-				Value:     &sdcpb.TypedValue_UintVal{UintVal: uint64(i)},
+				Value:     &sdcpb.TypedValue_UintVal{UintVal: i},
 			}
 			return ctv, nil
 		case "int64", "int32", "int16", "int8":
-			i, err := strconv.Atoi(TypedValueToString(tv))
+			i, err := strconv.ParseInt(TypedValueToString(tv), 10, 64)
 			if err != nil {
 				return nil, err
 			}
 			ctv := &sdcpb.TypedValue{
 				Timestamp: tv.GetTimestamp(),
-				Value:     &sdcpb.TypedValue_IntVal{IntVal: int64(i)},
+				Value:     &sdcpb.TypedValue_IntVal{IntVal: i},
 			}
 			return ctv, nil
 		case "enumeration":
